@@ -3,14 +3,18 @@
 
   Theorems about `Model.wbxml2xml` (`Model/EncXml.lean`: `wbxml_conv_wbxml2xml_run` =
   `wbxml_tree_from_wbxml` ∘ `wbxml_tree_to_xml`), for ALL byte strings and ALL option tuples
-  (`W2XCfg`: main table, forced language, fallback charset, generation mode, indent, keep-ws). The
-  tie of the model to the C code is the byte-exact W2X correspondence.
+  (`W2XCfg`: main table — arbitrary, not only the library's —, forced language, fallback charset,
+  generation mode, indent, keep-ws). The tie of the model to the C code is the byte-exact W2X
+  correspondence.
 
-  Proved at full strength: `w2x_no_ub`, `w2x_no_crash`, `w2x_tree_total`.
-  Partial (see DESIGN_NOTES/C13_C01_proofs.md): `w2x_total_partial`, `w2x_contract_partial` — the
-  fuel of the XML generator (`2·len + 4`) is sufficient whenever the tree fits (`okNode`), and the
-  bound "the tree of an `n`-byte document fits into `2n + 4`" is not proved (it is false for
-  adversarial language tables, see the notes).
+  Proved at full strength: `w2x_total`, `w2x_contract`, `w2x_fuel_sufficient`, `w2x_no_ub`,
+  `w2x_no_crash`, `w2x_tree_total`, `w2x_generator_budget`, `w2x_parser_total`, `empty_input`.
+  The XML generator's recursion budget is `Tree.xmlFuel`, computed from the tree itself (one unit per
+  nesting level and per sibling, exactly what `xmlNode`/`xmlNodes` spend); the C code has no budget.
+
+  What remains a model artefact is stated, not hidden: `embedded_depth_le` (the tree stage nests
+  embedded documents at most `bs.length` deep; deeper nesting is cut off by the model's fuel, as text)
+  with the witness `embedded_cutoff_witness`. See DESIGN_NOTES/C13_C01_proofs.md.
 -/
 import Wbxml.Lemmas.ParserSafeBuild
 namespace Wbxml.Props.C01
@@ -28,73 +32,82 @@ theorem w2x_tree_total (cfg : W2XCfg) (bs : Bytes) :
   · exact Or.inl ⟨t, ht, treeOfWbxml_good cfg.main _ _ _ _ _ ht⟩
   · exact Or.inr ⟨c, hc0, hc⟩
 
-/-- The conversion's verdict is success, a non-zero error code, or — only from the XML generator —
-    fuel exhaustion. -/
-theorem w2x_contract_partial (cfg : W2XCfg) (bs : Bytes) :
-    (∃ xml, wbxml2xml cfg bs = .ok xml) ∨ (∃ c, c ≠ 0 ∧ wbxml2xml cfg bs = .error (.code c)) ∨
-    wbxml2xml cfg bs = .error .fuel := by
-  rcases wbxml2xml_anatomy cfg bs with ⟨_, h⟩ | ⟨c, hc0, _, h⟩ | ⟨t, ht, h⟩
-  · exact Or.inr (Or.inl ⟨12, by decide, h⟩)
-  · exact Or.inr (Or.inl ⟨c, hc0, h⟩)
-  · rw [h]
-    exact (treeToXml_noub cfg _ t (treeOfWbxml_good cfg.main _ _ _ _ _ ht)).cases
+/-- **The generator's budget suffices.** For every tree the tree stage delivers — under any language
+    tables — the root passes `okNode` (one unit per nesting level and per sibling, no embedded document
+    with a language lacks its root) at the budget `t.xmlFuel` that `wbxml2xml` hands to the generator. -/
+theorem w2x_generator_budget (cfg : W2XCfg) (bs : Bytes) (t : Tree)
+    (ht : treeOfWbxml cfg.main (bs.length + 1) cfg.lang cfg.charset bs = .ok t) :
+    t.lang = none ∨ ∃ r, t.root = some r ∧ okNode t.xmlFuel r = true := by
+  rcases treeOfWbxml_good cfg.main _ _ _ _ _ ht with hl | ⟨r, hr, hg⟩
+  · exact Or.inl hl
+  · refine Or.inr ⟨r, hr, ?_⟩
+    have : t.xmlFuel = r.xmlFuel := by simp only [Tree.xmlFuel, hr]
+    rw [this]
+    exact hg.okNode_xmlFuel
+
+/-- **Totality.** For every option tuple — arbitrary language tables included — and every byte string
+    the conversion returns XML or a non-zero library error code; never `fuel`, `ub`, `crash`.
+
+    What the statement covers and what it does not:
+    * The XML generator's recursion budget is `Tree.xmlFuel`, a structural function of the tree; it
+      can never be the reason for a result (`w2x_generator_budget`). The C code has no budget: it
+      recurses over the tree; its stack use at extreme depth is a runtime fact outside the model
+      (known finding "deep nesting" of C01/C02).
+    * The parser's and the tree stage's budget `bs.length + 1` suffices for the document itself
+      (`w2x_tree_total`).
+    * **Model artefact, embedded documents**: `treeOfWbxml` runs the parser of an embedded (SyncML
+      DevInf / DM-TNDS) document with fuel `f - 1`, starting from `bs.length + 1`, and maps EVERY
+      error of the nested run — fuel exhaustion included — to "keep the payload as text". So an
+      embedded-document nesting deeper than `bs.length` levels is cut off by the model, not by the
+      C code (which recurses on). This does not show in the verdict; it is made explicit by
+      `embedded_depth_le` and `embedded_cutoff_witness` below. With the library's own tables an
+      embedded document is a strict part of its container's bytes (opaque or inline string), so the
+      cut-off is unreachable there; that table fact is not proved here. -/
+theorem w2x_total (cfg : W2XCfg) (bs : Bytes) :
+    (∃ xml, wbxml2xml cfg bs = .ok xml) ∨ (∃ c, c ≠ 0 ∧ wbxml2xml cfg bs = .error (.code c)) := by
+  rcases (wbxml2xml_safe cfg bs).cases with ⟨xml, h, _⟩ | ⟨c, h, hc0⟩
+  · exact Or.inl ⟨xml, h⟩
+  · exact Or.inr ⟨c, hc0, h⟩
+
+/-- The contract of `wbxml_conv_wbxml2xml_run`: the result is `.ok xml` (the out-parameters are
+    `xml`, `xml.length`) or `.error (.code c)` with `c ≠ 0` (an `Except` error carries no output: the
+    out-parameters are `NULL, 0`); exactly one of the two, and `WBXML_OK` (0) is never an error. -/
+theorem w2x_contract (cfg : W2XCfg) (bs : Bytes) :
+    ((∃ xml, wbxml2xml cfg bs = .ok xml) ∨ (∃ c, c ≠ 0 ∧ wbxml2xml cfg bs = .error (.code c))) ∧
+    ¬ ((∃ xml, wbxml2xml cfg bs = .ok xml) ∧ (∃ e, wbxml2xml cfg bs = .error e)) ∧
+    (bs = [] → wbxml2xml cfg bs = .error (.code 12)) := by
+  refine ⟨w2x_total cfg bs, ?_, ?_⟩
+  · rintro ⟨⟨xml, h1⟩, ⟨e, h2⟩⟩
+    rw [h1] at h2; cases h2
+  · intro h; subst h; rfl
+
+/-- The model's fuel is never the reason for a result. -/
+theorem w2x_fuel_sufficient (cfg : W2XCfg) (bs : Bytes) : wbxml2xml cfg bs ≠ .error .fuel :=
+  (wbxml2xml_safe cfg bs).not_fuel
 
 /-- **No run of the conversion reaches a flagged operation**: not in the parser (blind cursor
     increments, language-table dereferences), and not in the generator (`tree without root`,
     `nested tree without root`): every tree the tree stage delivers has a root, and so has every
     embedded document in it. -/
-theorem w2x_no_ub (cfg : W2XCfg) (bs : Bytes) (w : String) : wbxml2xml cfg bs ≠ .error (.ub w) := by
-  intro h
-  rcases w2x_contract_partial cfg bs with ⟨x, hx⟩ | ⟨c, _, hc⟩ | hf
-  · rw [hx] at h; cases h
-  · rw [hc] at h; cases h
-  · rw [hf] at h; cases h
+theorem w2x_no_ub (cfg : W2XCfg) (bs : Bytes) (w : String) : wbxml2xml cfg bs ≠ .error (.ub w) :=
+  (wbxml2xml_safe cfg bs).not_ub w
 
-theorem w2x_no_crash (cfg : W2XCfg) (bs : Bytes) (w : String) : wbxml2xml cfg bs ≠ .error (.crash w) := by
-  intro h
-  rcases w2x_contract_partial cfg bs with ⟨x, hx⟩ | ⟨c, _, hc⟩ | hf
-  · rw [hx] at h; cases h
-  · rw [hc] at h; cases h
-  · rw [hf] at h; cases h
+theorem w2x_no_crash (cfg : W2XCfg) (bs : Bytes) (w : String) : wbxml2xml cfg bs ≠ .error (.crash w) :=
+  (wbxml2xml_safe cfg bs).not_crash w
 
-/-- Where fuel can run out: only in the XML generator, and only if the tree the tree stage built
-    does not fit into `2·len + 4` units (`okNode`: one unit per nesting level and per sibling). -/
-theorem w2x_total_partial (cfg : W2XCfg) (bs : Bytes) (h : wbxml2xml cfg bs = .error .fuel) :
-    ∃ t r, treeOfWbxml cfg.main (bs.length + 1) cfg.lang cfg.charset bs = .ok t ∧ t.root = some r ∧
-      okNode (2 * bs.length + 4) r = false := by
-  rcases wbxml2xml_anatomy cfg bs with ⟨_, h'⟩ | ⟨c, _, _, h'⟩ | ⟨t, ht, h'⟩
-  · rw [h'] at h; cases h
-  · rw [h'] at h; cases h
-  · rcases treeOfWbxml_good cfg.main _ _ _ _ _ ht with hl | ⟨r, hr, _⟩
-    · -- a tree without language is refused with error 12 before any generation
-      rw [h'] at h
-      simp [treeToXml, hl] at h
-    · refine ⟨t, r, ht, hr, ?_⟩
-      cases hok : okNode (2 * bs.length + 4) r with
-      | false => rfl
-      | true =>
-        have := treeToXml_safe cfg (2 * bs.length + 4) t (Or.inr ⟨r, hr, hok⟩)
-        rw [← h', h] at this
-        exact absurd this (by simp)
-
-/-- Hence: if the tree fits, the conversion is total and meets its contract. -/
-theorem w2x_total_of_fits (cfg : W2XCfg) (bs : Bytes)
-    (hfit : ∀ t r, treeOfWbxml cfg.main (bs.length + 1) cfg.lang cfg.charset bs = .ok t → t.root = some r →
-      okNode (2 * bs.length + 4) r = true) :
-    wbxml2xml cfg bs ≠ .error .fuel := by
-  intro h
-  obtain ⟨t, r, ht, hr, hno⟩ := w2x_total_partial cfg bs h
-  rw [hfit t r ht hr] at hno
-  cases hno
-
-theorem w2x_contract_of_fits (cfg : W2XCfg) (bs : Bytes)
-    (hfit : ∀ t r, treeOfWbxml cfg.main (bs.length + 1) cfg.lang cfg.charset bs = .ok t → t.root = some r →
-      okNode (2 * bs.length + 4) r = true) :
-    (∃ xml, wbxml2xml cfg bs = .ok xml) ∨ (∃ c, c ≠ 0 ∧ wbxml2xml cfg bs = .error (.code c)) := by
-  rcases w2x_contract_partial cfg bs with h | h | h
+/-- A failing conversion failed in the parser / tree builder, or in the generator with one of its two
+    codes: 12 (an embedded tree without language) or 18 (base64 of an empty buffer) — stated as:
+    the generator's verdict on the delivered tree is the conversion's verdict. -/
+theorem w2x_stages (cfg : W2XCfg) (bs : Bytes) :
+    (bs = [] ∧ wbxml2xml cfg bs = .error (.code 12)) ∨
+    (∃ c, c ≠ 0 ∧ treeOfWbxml cfg.main (bs.length + 1) cfg.lang cfg.charset bs = .error (.code c) ∧
+        wbxml2xml cfg bs = .error (.code c)) ∨
+    (∃ t, treeOfWbxml cfg.main (bs.length + 1) cfg.lang cfg.charset bs = .ok t ∧ GoodT t ∧
+        wbxml2xml cfg bs = treeToXml cfg t.xmlFuel t) := by
+  rcases wbxml2xml_anatomy cfg bs with h | h | ⟨t, ht, h⟩
   · exact Or.inl h
-  · exact Or.inr h
-  · exact absurd h (w2x_total_of_fits cfg bs hfit)
+  · exact Or.inr (Or.inl h)
+  · exact Or.inr (Or.inr ⟨t, ht, treeOfWbxml_good cfg.main _ _ _ _ _ ht, h⟩)
 
 /-- The parser's part of the conversion, restated: the verdict of `parse` under the conversion's
     parser configuration is success or a non-zero error code. -/
@@ -106,6 +119,23 @@ theorem w2x_parser_total (cfg : W2XCfg) (bs : Bytes) :
     with ⟨⟨⟩, h, _⟩ | ⟨c, h, h0⟩
   · exact Or.inl h
   · exact Or.inr ⟨c, h0, h⟩
+
+/-! ## The model artefact that remains: nesting of embedded documents -/
+
+/-- **The tree stage nests embedded documents at most `bs.length` deep** (`embDepthT`: number of
+    `.tree` nodes along a path): the nested parser gets one unit of fuel less per level, and a nested
+    run that fails — for whatever reason — leaves its payload as text. Deeper nesting is cut off by
+    the model; the C code has no such limit. -/
+theorem embedded_depth_le (cfg : W2XCfg) (bs : Bytes) (t : Tree)
+    (ht : treeOfWbxml cfg.main (bs.length + 1) cfg.lang cfg.charset bs = .ok t) :
+    embDepthT t ≤ bs.length := by
+  have := treeOfWbxml_embDepth cfg.main _ _ _ _ _ ht
+  omega
+
+/-- General form, any fuel. -/
+theorem embedded_depth_lt_fuel (main : List Lang) (f lang cs : Nat) (bs : Bytes) (t : Tree)
+    (ht : treeOfWbxml main f lang cs bs = .ok t) : embDepthT t < f :=
+  treeOfWbxml_embDepth main _ _ _ _ _ ht
 
 /-! ## Non-vacuity -/
 
@@ -123,21 +153,16 @@ def demoCfg : W2XCfg := { main := [demoLang] }
 def demoDoc : Bytes := [3, 2, 0x6A, 2, 0x78, 0, 0xC5, 5, 0x83, 0, 0x85, 1, 6, 2, 0x41, 1]
 
 example : (wbxml2xml demoCfg demoDoc).toBool = true := by decide +kernel
-/-- The fit hypothesis holds for the demo document (checked by evaluation). -/
-example : (match treeOfWbxml demoCfg.main (demoDoc.length + 1) demoCfg.lang demoCfg.charset demoDoc with
-    | .ok t => (match t.root with | some r => okNode (2 * demoDoc.length + 4) r | none => false)
-    | .error _ => false) = true := by decide +kernel
 /-- A truncated document: the conversion fails with a non-zero code, not with `ub`/`fuel`. -/
 example : (match wbxml2xml demoCfg (demoDoc.take 9) with | .error (.code c) => c == 45 | _ => false) = true := by
   decide +kernel
 
-/-! ## Why `w2x_total` is `_partial`: for arbitrary language tables the generator's fuel is not enough
+/-! ## The former fuel witness
 
-`W2XCfg.main` is quantified over, and a language table may carry an extension-value name that is
-itself a (large) WBXML document: a 3-byte `EXT_T_0 idx` then produces an embedded document whose tree
-is bigger than `2·len + 4`. The witness below is checked by evaluation. With the library's real
-tables (`Gen.main`) no extension name parses as a document; that table fact is what a full proof of
-`w2x_total` needs (see DESIGN_NOTES/C13_C01_proofs.md). -/
+Before the generator's budget was made structural it was `2·len + 4`, and that is not enough for
+arbitrary language tables: a table may carry an extension-value name that is itself a (large) WBXML
+document; a 3-byte `EXT_T_0 idx` then produces an embedded document whose tree is bigger than
+`2·len + 4`. The same input now converts. -/
 
 /-- An embedded document: header (public id 2), 60 nested `X` elements around an empty `X`. -/
 def advInner : Bytes := [3, 2, 0x6A, 0] ++ List.replicate 60 0x48 ++ [0x08] ++ List.replicate 60 0x01
@@ -156,22 +181,45 @@ def advDoc : Bytes :=
   [3, 2, 0x6A, 0, 0x48, 0x46, 0x47, 0x03] ++ b!"application/vnd.syncml-devinf+wbxml" ++
   [0, 0x01, 0x01, 0x45, 0x80, 0x00, 0x01, 0x01]
 
-
-/-- The 51-byte `advDoc` under `advCfg` exhausts the generator's fuel `2·51 + 4`. -/
-theorem w2x_total_false_for_arbitrary_tables :
-    ¬ ∀ (cfg : W2XCfg) (bs : Bytes), wbxml2xml cfg bs ≠ .error .fuel := by
-  intro h
-  have hw : (match wbxml2xml advCfg advDoc with | .error .fuel => true | _ => false) = true := by
-    decide +kernel
-  rcases w2x_contract_partial advCfg advDoc with ⟨x, hx⟩ | ⟨c, _, hc⟩ | hf
-  · rw [hx] at hw; cases hw
+/-- The 51-byte `advDoc` under `advCfg` — which exhausted the former budget `2·51 + 4` — converts. -/
+theorem w2x_former_fuel_witness_converts : ∃ xml, wbxml2xml advCfg advDoc = .ok xml := by
+  have hw : (wbxml2xml advCfg advDoc).toBool = true := by decide +kernel
+  rcases w2x_total advCfg advDoc with h | ⟨c, _, hc⟩
+  · exact h
   · rw [hc] at hw; cases hw
-  · exact h advCfg advDoc hf
 
-/-- … while the same tree is generated without complaint when given more fuel: the failure is the
-    model's fuel, not the document. -/
+/-- Its tree does need more than the former budget: `okNode (2·51 + 4)` fails on the root, the
+    structural budget is 128, and the embedded document is there (depth 1). -/
 example : (match treeOfWbxml advCfg.main (advDoc.length + 1) 0 0 advDoc with
-    | .ok t => (treeToXml advCfg 400 t).toBool
+    | .ok t => (match t.root with
+        | some r => !okNode (2 * advDoc.length + 4) r && t.xmlFuel == 128 && embDepthT t == 1
+        | none => false)
     | .error _ => false) = true := by decide +kernel
+
+/-! ### Two levels of embedded documents, and the cut-off -/
+
+/-- Extension 0 is a document that embeds extension 1 (`<X/>`). -/
+def nest2Lang : Lang :=
+  { advLang with exts := some [⟨advDoc.take 47 ++ [0x80, 0x01, 0x01, 0x01], 0⟩, ⟨[3, 2, 0x6A, 0, 0x08], 1⟩] }
+
+def nest2Cfg : W2XCfg := { main := [nest2Lang] }
+
+/-- A two-level nesting is handled: the tree holds a document inside a document, and converts. -/
+example : (match treeOfWbxml nest2Cfg.main (advDoc.length + 1) 0 0 advDoc with
+    | .ok t => embDepthT t == 2 && (treeToXml nest2Cfg t.xmlFuel t).toBool
+    | .error _ => false) = true := by decide +kernel
+
+/-- A language whose extension 0 is `advDoc` itself: the document embeds itself without end. -/
+def selfLang : Lang := { advLang with exts := some [⟨advDoc, 0⟩] }
+
+def selfCfg : W2XCfg := { main := [selfLang] }
+
+/-- **The cut-off is reachable under adversarial tables.** `advDoc` under `selfCfg` embeds itself; the
+    C code would recurse without bound; the model stops after `advDoc.length` (= 51) levels — the
+    bound of `embedded_depth_le` is attained — and converts what it has. -/
+theorem embedded_cutoff_witness :
+    (match treeOfWbxml selfCfg.main (advDoc.length + 1) 0 0 advDoc with
+     | .ok t => embDepthT t == advDoc.length && (treeToXml selfCfg t.xmlFuel t).toBool
+     | .error _ => false) = true := by decide +kernel
 
 end Wbxml.Props.C01
